@@ -81,6 +81,28 @@ pub fn exec_bls(o: &str, args: &[&str]) -> String {
             }
             None => "bad-op".into(),
         },
+        // arbitrary byte strings offered to both engines' deserialisers: same verdict, same value
+        "deser" => {
+            let kind = args.get(0).copied().unwrap_or("");
+            let bytes = match args.get(1).and_then(|h| unhex(h)) { Some(b) => b, None => return "bad-op".into() };
+            fn show<T: CanonicalSerialize, E>(r: Result<T, E>) -> String {
+                match r { Ok(v) => { let mut o = Vec::new(); v.serialize_uncompressed(&mut o).unwrap(); format!("ok:{}", tohex(&o)) } Err(_) => "err".into() }
+            }
+            let (a, b) = match kind {
+                "g1c" => (show(<Ours as Pairing>::G1Affine::deserialize_compressed(&bytes[..])), show(<Ref as Pairing>::G1Affine::deserialize_compressed(&bytes[..]))),
+                "g1u" => (show(<Ours as Pairing>::G1Affine::deserialize_uncompressed(&bytes[..])), show(<Ref as Pairing>::G1Affine::deserialize_uncompressed(&bytes[..]))),
+                "g1cu" => (show(<Ours as Pairing>::G1Affine::deserialize_compressed_unchecked(&bytes[..])), show(<Ref as Pairing>::G1Affine::deserialize_compressed_unchecked(&bytes[..]))),
+                "g1uu" => (show(<Ours as Pairing>::G1Affine::deserialize_uncompressed_unchecked(&bytes[..])), show(<Ref as Pairing>::G1Affine::deserialize_uncompressed_unchecked(&bytes[..]))),
+                "g2c" => (show(<Ours as Pairing>::G2Affine::deserialize_compressed(&bytes[..])), show(<Ref as Pairing>::G2Affine::deserialize_compressed(&bytes[..]))),
+                "g2u" => (show(<Ours as Pairing>::G2Affine::deserialize_uncompressed(&bytes[..])), show(<Ref as Pairing>::G2Affine::deserialize_uncompressed(&bytes[..]))),
+                "g2cu" => (show(<Ours as Pairing>::G2Affine::deserialize_compressed_unchecked(&bytes[..])), show(<Ref as Pairing>::G2Affine::deserialize_compressed_unchecked(&bytes[..]))),
+                "gt" => (show(<Ours as Pairing>::TargetField::deserialize_compressed(&bytes[..])), show(<Ref as Pairing>::TargetField::deserialize_compressed(&bytes[..]))),
+                "fp" => (show(decaf377::Fp::deserialize_compressed(&bytes[..])), show(ark_bls12_377::Fq::deserialize_compressed(&bytes[..]))),
+                "fr" => (show(decaf377::Fq::deserialize_compressed(&bytes[..])), show(ark_bls12_377::Fr::deserialize_compressed(&bytes[..]))),
+                _ => return "bad-op".into(),
+            };
+            format!("{} {}", a, b)
+        }
         _ => "unsupported".into(),
     }
 }
